@@ -321,8 +321,12 @@ pub static C10: CheckDef = CheckDef {
 };
 
 fn run_c09(ctx: &mut Ctx) {
-    enumerate(ctx, Mode::Total);
+    // the semantic spaces first: they are small, and a capped run still covers them
     crate::c09sem::run(ctx);
+    if std::env::var("VERIF_C09_SEM_ONLY").is_ok() {
+        return;
+    }
+    enumerate(ctx, Mode::Total);
 }
 
 pub static C09: CheckDef = CheckDef {
